@@ -83,7 +83,7 @@ class World(object):
     def op_new(self, op):
         np = _np()
         dense = np.array(op["dense"], dtype=np.int64).reshape(op["shape"])
-        ix = build_index(dense, op["common"], readonly=op.get("readonly", False))
+        ix = build_index(dense, op["common"], readonly=op.get("readonly", False), reverse=bool(op.get("reverse")))
         self.push(ix, dense, "new")
 
     def op_from_array(self, op):
@@ -732,7 +732,8 @@ def make_machine(mode, rec, tier, guard=None):
             common = data.draw(st.sampled_from(pal + [pal[0], 9]), label="common")
             return {"dense": dense, "shape": list(shape), "common": common,
                     "readonly": data.draw(st.sampled_from([False, False, False, True, "strided"]),
-                                          label="rowid layout")}
+                                          label="rowid layout"),
+                    "reverse": data.draw(st.booleans(), label="reverse entry order")}
 
         @initialize(data=st.data())
         def init(self, data):
